@@ -35,6 +35,39 @@ CHECKS = {
         note='Trusted: z3 feasibility answers; probe sweeper. Outside: NP>4, MPI controller, iteration estimator; single block per run.',
         design='4/C07', technique='symbolic path exploration of the real controller with SMT feasibility pruning and coverage certificate',
     ),
+    'C06': dict(
+        category='model_checking',
+        text='Bounded model checking of the real run loop: t0, dt, Tend symbolic reals, time step an uninterpreted function G(u,t); every feasible block/step pattern executed; per path SMT '
+             'validity of tiling (start k = t0 + k dt), exact chaining (congruence over G), returned value and minimal step count; coverage certificate. Bounds: 1..4 (8) steps per block, <= 10 (12) steps. '
+             'Second layer: concolic IEEE-double execution of the same run + QF_FP query for an extra step (counterexample finder, thorough tier), witnesses re-executed in the quick tier.',
+        note='Trusted: z3; direct-solver probe sweeper contract; real arithmetic in layer 1. Known finding: extra step from accumulated rounding (known_findings.json). Outside: adaptive dt (C09), MPI/ParaDiag controllers, multi-level.',
+        design='4/C06', technique='symbolic execution of the real controller (reals + uninterpreted function) with SMT validity queries; concolic floating-point execution + QF_FP query',
+    ),
+    'C09': dict(
+        category='model_checking',
+        text='(a) one transition of the real restart state machine (determine_restart, prepare_next_block, step-size spreading) from an arbitrary symbolic state, SMT validity per path + coverage; '
+             '(b) bounded exploration of the real controller over all restart-request histories (symbolic request at every (step, attempt)); (c) real step-size formula, limiters and '
+             'Adaptivity on symbolic reals (power encoded algebraically). Bounds: NP<=3(4), max_restarts<=2(3), <=5(6) steps, order<=5.',
+        note='Trusted: z3; injected restart requests stand for the error estimators; beta<1 for the strict-decrease clause. Outside: estimators, AdaptivityCollocation, avoid_restarts, StepSizeRounding, MPI.',
+        design='4/C09', technique='symbolic execution of real convergence controllers + SMT (LIA/NRA) validity; symbolic path exploration of restart histories',
+    ),
+    'C14': dict(
+        category='other',
+        text='(a) real filter_stats/get_list_of_types on dictionaries with symbolic integer key fields: every path proved equal to the specification, coverage certified; sort_stats by CrossHair contracts; '
+             '(b) every explored convergence pattern / restart history of the real controller with all logging hooks: one correctly keyed record per accepted step and type, niter = iteration callbacks, '
+             'work_rhs = evaluations made, no silent key collisions.',
+        note='Trusted: z3, CrossHair (only "Confirmed over all paths" counts). Restart generation and entry type are enumerated. Outside: error/timing hooks, MPI gathering, > 4 entries.',
+        design='4/C14', technique='symbolic execution of real helpers (z3) + CrossHair contracts; path exploration of the real controller with recording hooks',
+    ),
+    'C16': dict(
+        category='other',
+        text='The real FieldsIO methods run against a symbolic file (byte length, offsets, number of variables, completed records k, crash offset c, read index are z3 integers; '
+             'writes/reads are extents with provenance): SMT (QF_NIA) validity per path of nFields = k after any crash, reads of idx in [-k,k) touch exactly record idx, others rejected, '
+             'append after a crash is aligned/read back/does not disturb old records, header round trip; coverage certificates. Block decomposition: CrossHair contracts (contiguity, '
+             'exact cover, factorisation) over symbolic sizes. Bit-exact numpy round trips and the crash scenario at every byte offset are replayed on real files.',
+        note='Trusted: z3, CrossHair; numpy tofile/fromfile transfer exactly nbytes (stub contract); a crash leaves a prefix of the interrupted write. Outside: MPI-IO, toVTR, symbolic Rectilinear grids.',
+        design='4/C16', technique='symbolic execution of real I/O code on a symbolic file + SMT (QF_NIA); CrossHair contracts for the block decomposition',
+    ),
 }
 
 NOT_APPLICABLE = {
